@@ -6,7 +6,8 @@ def _witness():
     is built and run; the case directory already exists).  Reads the atomic shapes atomics2v translated
     from the c2/state.go under check (coq/Gen/StateAtomics.v) and evaluates INSIDE Coq, on those generated
     terms, the three-step witness schedule of Model/Interleave.v ([T0.load; T1 to completion; T0.rest]) for
-    Set||Set, Set||Unset and SetLast||Set.  The result is written to build/c13_run/witness.json; the harness
+    Set||Set, Set||Unset and SetLast||Set, and searches (find_bad) a schedule of the translated SetChannel
+    against the translated ChannelCanStop that breaks the channel protocol invariant.  The result is written to build/c13_run/witness.json; the harness
     attaches it to the replay of a lost update seen by the stress run and to the evidence.  Adds no overlay
     file (returns {})."""
     import vlib
@@ -36,8 +37,33 @@ def _witness():
               "Definition gc := to_call gen_set gen_unset gen_setlast.\n" \
               "Definition show (r : witness_result) := (wr_final r, wr_done r, wr_serial01 r, wr_serial10 r, wr_lost r).\n" + \
               "".join("Eval vm_compute in (show (lost_update_witness %s)).\n" % t for _, t in pairs)
+        src += "Definition showp (o : option protocol_witness) := match o with None => None | Some w => " \
+               "Some (pw_request w, pw_word0 w, pw_sched w, pw_word w, pw_setchannel w, pw_canstop w, pw_next_poll w) end.\n" \
+               "Eval vm_compute in (showp (protocol_counterexample gen_set gen_unset gen_channelcanstop gen_setchannel)).\n" \
+               "Eval vm_compute in (prog_in gen_channelcanstop && prog_in gen_channelcanstart && prog_in (gen_setchannel true) && prog_in (gen_setchannel false)).\n"
         open(os.path.join(wd, "witness.v"), "w").write(src)
         rc, out = vlib.sh(["coqc", "-Q", vlib.COQ, "XMT", "witness.v"], cwd=wd, timeout=120)
+        info["compound"] = {m.group(1): m.group(2) for m in re.finditer(r"Definition gen_(tag|channelcanstop|channelcanstart) : prog := (.*)\.", gen)}
+        m = re.search(r"Definition gen_setchannel \(e : bool\) : prog :=\s*if e then (.*)\s*else (.*)\.", gen)
+        if m:
+            info["compound"]["setchannel(true)"], info["compound"]["setchannel(false)"] = m.group(1).strip(), m.group(2).strip()
+        flat = " ".join(out.split()).replace("%nat", "")
+        pm = re.search(r"= Some \((true|false), (-?\d+), \[([0-9; ]*)\], (-?\d+), (Some true|Some false|None), (Some true|Some false|None), (Some true|Some false|None)\)", flat)
+        ob = lambda t: None if t == "None" else t == "Some true"
+        if pm:
+            sched = [int(x) for x in pm.group(3).split(";") if x.strip()]
+            info["protocol_witness"] = {
+                "what": "a schedule of the TRANSLATED SetChannel (thread 0) and ChannelCanStop (thread 1), one atomic call per slot, reaching a configuration "
+                        "where the channel protocol invariant (Model/Interleave.v protocol_ok) fails; found by exhaustive search inside Coq (find_bad)",
+                "request": "SetChannel(%s)" % pm.group(1), "initial_word": int(pm.group(2)), "schedule_thread_ids": sched,
+                "word_reached": int(pm.group(4)), "setchannel_answer": ob(pm.group(5)), "channelcanstop_answer": ob(pm.group(6)),
+                "answer_of_one_more_poll": ob(pm.group(7))}
+            info["model_breaks_protocol"] = True
+        elif rc == 0 and re.search(r"= None : option", flat):
+            info["model_breaks_protocol"] = False
+        pi = re.findall(r"= (true|false) : bool", flat)
+        if pi:
+            info["compound_recognised"] = pi[-1] == "true"
         rows = re.findall(r"=\s*\((-?\d+),\s*(true|false),\s*(-?\d+),\s*(-?\d+),\s*(true|false)\)", " ".join(out.split()))
         if rc == 0 and len(rows) == len(pairs):
             info["witness_schedule"] = {
